@@ -92,6 +92,31 @@ def cases(tier, seed):
             ufo["lib"] = {"public.unicodeVariationSequences": uvs}
         out.append({"cid": f"c03-{seed}-{k}", "lib": rng.choice(["ufoLib2", "defcon"]), "flavor": rng.choice(["tt", "cff"]),
                     "ufo": ufo, "kwargs": kwargs})
+    # fonts whose LAYOUT features are generated too (attaching anchors, kerning), with code points of scripts the feature
+    # writers treat specially (Indic / USE / Khmer, right-to-left, supplementary planes): the character map the font ends up
+    # with is still the source's, in every subtable
+    rng2 = random.Random(seed * 86028121 + 30003)
+    SPECIAL = [0x915, 0x917, 0x958, 0x902, 0x1780, 0x17B6, 0x11103, 0x11101, 0x5D0, 0x627, 0x64E, 0x301, 0x41, 0x61, 0xE81, 0x1E900, 0x104B0]
+    for k in range(16 if tier == "quick" else 200):
+        cps = rng2.sample(SPECIAL, rng2.randint(4, 9))
+        if k % 2 == 0:
+            cps = [cp for cp in cps if cp < 0x10000] or [0x915, 0x902]
+        names = [f"g{cp:04X}" for cp in cps]
+        glyphs = {}
+        marks = {0x902, 0x17B6, 0x11101, 0x64E, 0x301}
+        for nm, cp in zip(names, cps):
+            mark = cp in marks
+            glyphs[nm] = {"cs": [_square(0, 0, 100)], "comps": [], "w": (0 if mark else 500) * 1024, "h": 0, "u": [cp],
+                          "anchors": [{"n": "_top", "x": 0, "y": 500 * 1024}] if mark else [{"n": "top", "x": 250 * 1024, "y": 600 * 1024}]}
+        if not any(cp in marks for cp in cps):
+            glyphs["gmark"] = {"cs": [_square(0, 0, 50)], "comps": [], "w": 0, "h": 0, "u": [0x902],
+                               "anchors": [{"n": "_top", "x": 0, "y": 500 * 1024}]}
+            names.append("gmark")
+        ufo = {"glyphs": glyphs, "glyphNames": list(names), "order": list(names),
+               "info": {"unitsPerEm": 1000, "ascender": 800, "descender": -200},
+               "kerning": [[names[0], names[1], -40]] if len(names) > 1 else [], "kernScale": 1}
+        out.append({"cid": f"c03-{seed}-ly{k}", "lib": rng2.choice(["ufoLib2", "defcon"]), "flavor": "tt" if k % 3 else "cff",
+                    "ufo": ufo, "kwargs": {}, "via": "static" if k % 4 else "vf"})
     return out
 
 
